@@ -16,6 +16,7 @@
 package c17
 
 import (
+	"context"
 	"bytes"
 	"encoding/binary"
 	"encoding/json"
@@ -105,6 +106,59 @@ type image struct {
 }
 
 // judge opens a store on dir and evaluates the oracle. legit: recovery is required.
+// robust opens a store on dir and, if live is non-nil, writes live over the WAL of the running store and runs
+// Store.Recover (LiteFS's checkpoint as on a role change). Only "never a panic, an exit or a write outside the
+// database's pages" is judged: there is no position to compare the image with.
+func (x *ctx) robust(dir, label, what string, live []byte) {
+	x.res.Opens++
+	var bad string
+	litefs.VerifSetHook(func(site string, obj any, a int64, b bool) {
+		if site == "db.writepage" && a < 1 {
+			bad = fmt.Sprintf("page number %d", a)
+		}
+	})
+	defer litefs.VerifSetHook(nil)
+	n := lab.NewNode(lab.NodeConfig{Name: "P", ID: 0x1111, Dir: dir, Candidate: true, Leaser: litefs.NewStaticLeaser(true, "P", "http://P")})
+	started := false
+	func() {
+		defer func() {
+			if p := recover(); p != nil {
+				st := debug.Stack()
+				x.viol(prog.PanicKey(p, st), "%s [%s]: panicked: %v\n%s", what, label, p, trim(st))
+			}
+		}()
+		if err := n.Start(); err != nil {
+			x.class(what + "/open-error")
+			return
+		}
+		started = true
+		if live != nil {
+			lab.WaitFor(time.Second, n.Store.IsPrimary)
+			if db := n.DB("db"); db != nil {
+				_ = os.WriteFile(db.WALPath(), live, 0o666)
+				ctx, cancel := context.WithTimeout(context.Background(), 5*time.Second)
+				err := n.Store.Recover(ctx)
+				cancel()
+				x.class(fmt.Sprintf("%s/recover-err=%v", what, err != nil))
+			}
+		} else {
+			x.class(what + "/opened")
+		}
+	}()
+	if started {
+		func() {
+			defer func() { _ = recover() }()
+			_ = n.Stop()
+		}()
+	}
+	if codes := n.ExitCodes(); len(codes) > 0 {
+		x.viol("exit/"+what, "%s [%s]: Store.Exit(%v)", what, label, codes)
+	}
+	if bad != "" {
+		x.viol("write-outside/"+what, "%s [%s]: wrote %s (outside the database's pages)", what, label, bad)
+	}
+}
+
 func (x *ctx) judge(im image, what string) {
 	x.res.Opens++
 	var writes []int64
@@ -724,6 +778,18 @@ func runWAL(t *testing.T, c Case) (res Result) {
 			_ = os.WriteFile(wpath(dir), m.data, 0o666)
 			x.judge(image{label: fmt.Sprintf("WAL mutation %d: %s", mi, m.desc), dir: dir, want: img, wantPos: pos, legit: m.kind == "pristine"}, "walmut-"+m.kind)
 			lab.RemoveAll(dir)
+			// (3) the same bytes met by LiteFS's own checkpoint with nothing to compare them with: no transaction file
+			// (start-up goes straight to the checkpoint), and a checkpoint of a running store (role change, halt, import).
+			dir2 := filepath.Join(base, fmt.Sprintf("wmutn%04d", mi))
+			_ = lab.CopyDir(frozen, dir2)
+			_ = os.WriteFile(wpath(dir2), m.data, 0o666)
+			_ = os.RemoveAll(filepath.Join(dir2, "dbs", "db", "ltx"))
+			x.robust(dir2, fmt.Sprintf("WAL mutation %d without transaction files: %s", mi, m.desc), "walmut-nolog-"+m.kind, nil)
+			lab.RemoveAll(dir2)
+			dir3 := filepath.Join(base, fmt.Sprintf("wmutr%04d", mi))
+			_ = lab.CopyDir(frozen, dir3)
+			x.robust(dir3, fmt.Sprintf("WAL mutation %d placed under a running store, then Store.Recover: %s", mi, m.desc), "walmut-live-"+m.kind, m.data)
+			lab.RemoveAll(dir3)
 		}
 		res.Sample = map[string]any{"wal_bytes": len(w), "mutations": len(muts)}
 	})
